@@ -135,6 +135,9 @@ func (a *AddressMapArray) Decode(r stdio.Reader) (err error) {
 	if err := perunio.Decode(r, &mapLen); err != nil {
 		return errors.WithMessage(err, "decoding array length")
 	}
+	if mapLen < 0 {
+		return errors.Errorf("negative array length %d", mapLen)
+	}
 	*a = make([]map[wallet.BackendID]Address, mapLen)
 	for i := range mapLen {
 		if err := perunio.Decode(r, (*AddressDecMap)(&(*a)[i])); err != nil {
